@@ -85,7 +85,7 @@ def _floor(ex, x):
 def _same_array(ex, a, b):
     """reference equality of two array values"""
     from . import arrays
-    return isinstance(a, Arr) and isinstance(b, Arr) and arrays.root_of(a) is arrays.root_of(b)
+    return isinstance(a, Arr) and isinstance(b, Arr) and arrays.root_of(a).oid == arrays.root_of(b).oid
 
 
 @spec('arr_eq')
